@@ -248,8 +248,12 @@ Affected(s) ==      \* scenarios on which the transcribed code variants differ f
     \/ /\ s.kind = "cfit_ext" /\ s.path = "grad" /\ RaggedSw = "pack"
        /\ \E k \in 1..NGroups : Ragged(NAll(s.groups[k]), s.batch)
     \/ /\ s.kind = "cfit_cached" /\ s.path = "grad" /\ CachedEff = "noeff"
+NTot(gs) == LET F == [k \in 1..NGroups |-> <<Len(gs[k].dw) + gs[k].nb, 1>>] IN QSumF(F, 1, NGroups)[1]   \* all data + bg events
 CheapValid(s) ==
-    /\ s.batch <= MaxN(s.groups) + 1
+    \* the mixed likelihood (path "mix") batches the merged sample of all data sets; it exists for the models that
+    \* offer sum_nll_grad_bacth / sum_log_integral_grad_batch with this meaning: default and extended
+    /\ (s.path = "mix" => s.kind \in {"default", "extended"})
+    /\ s.batch <= (IF s.path = "mix" THEN NTot(s.groups) ELSE MaxN(s.groups)) + 1
     /\ (s.path = "value" => s.batch = MaxN(s.groups) + 1)       \* the value path is not batched
     /\ (OnlyDefects <=> Affected(s))
 ValidScn(s) == CheapValid(s) /\ \A k \in 1..NGroups : AdmissibleGroup(s, k)
@@ -290,10 +294,10 @@ Setup ==
        \E rest \in [2..NGroups -> GroupSet(scn.kind)] :
          LET gs == [k \in 1..NGroups |-> IF k = 1 THEN g1 ELSE rest[k]] IN
          /\ \A k \in 1..NGroups : AdmissibleGroup(MkScn(scn.kind, gs, 1, <<>>, "grad", scn.fscale), k)
-         /\ \E b \in 1..(MaxN(gs) + 1) :
+         /\ \E b \in 1..(NTot(gs) + MaxMC + 1) :
                /\ CheapValid(MkScn(scn.kind, gs, b, scn.constr, scn.path, scn.fscale))
                /\ scn' = MkScn(scn.kind, gs, b, scn.constr, scn.path, scn.fscale)
-    /\ pc' = "start"
+    /\ pc' = IF scn.path = "mix" THEN "mix_start" ELSE "start"
     /\ UNCHANGED <<gi, wts, mcw, bk, acc, sw, im, ib, tot, trail>>
 
 \* Model.get_weight_data (model.py:603): weight of data (default 1.0), concat
@@ -449,7 +453,71 @@ NextGroup ==
     /\ trail' = <<>>
     /\ UNCHANGED <<scn, tot>>
 
-\* FCN.__call__ / nll_grad, CombineFCN.__call__ / nll_grad: + constraint term, once
+--------------------------------------------------------------------------
+(* MixLogLikehoodFCN (model.py, `data: {using_mix_likelihood: True}`): the    *)
+(* gradient path nll_grad -> get_nll_grad is structurally different from      *)
+(* CombineFCN: ONE sum over the merged, blended samples of all data sets      *)
+(* (batches may straddle data sets), then per data set n_k * int_f(I_k) with  *)
+(* n_k = sum of the blended weights of data set k and the normalised MC       *)
+(* weights.  (Its __call__ / Hessian / Hessian-vector paths are CombineFCN's  *)
+(* over the inner FCN objects: paths "value" / "grad" above.)                 *)
+Offset(k) == LET F == [j \in 1..NGroups |-> <<IF j < k THEN NAll(scn.groups[j]) ELSE 0, 1>>] IN QSumF(F, 1, NGroups)[1]
+GroupOfEv(e) == CHOOSE k \in 1..NGroups : Offset(k) < e /\ e <= Offset(k) + NAll(scn.groups[k])
+NMerged == NTot(scn.groups)
+BlendedW(g) ==          \* Model.mix_data_bakcground = get_weight_data(data, data.get_weight(), bg, alpha=True)
+    LET modelwbkg == IF g.bgkey THEN QInt(1) ELSE g.wb
+        bgw == IF g.bgkey THEN QNeg(g.wb) ELSE QNeg(modelwbkg)
+        raw == TLCEval([i \in 1..NAll(g) |-> IF i <= ND(g) THEN g.dw[i] ELSE bgw])
+        s1 == QSumF(raw, 1, NAll(g))
+        s2 == QSumF([i \in 1..NAll(g) |-> QMul(raw[i], raw[i])], 1, NAll(g))
+    IN TLCEval([i \in 1..NAll(g) |-> QMul(QDiv(s1, s2), raw[i])])
+\* __init__: blend every data set, merge (data_merge(*self.datas)), pre-batch
+MixBlend ==
+    /\ pc = "mix_start"
+    /\ wts' = TLCEval([e \in 1..NMerged |-> BlendedW(scn.groups[GroupOfEv(e)])[e - Offset(GroupOfEv(e))]])
+    /\ pc' = "mix_data" /\ bk' = 1
+    /\ UNCHANGED <<scn, gi, mcw, acc, sw, im, ib, tot, trail>>
+\* sum_nll_grad_bacth(self.data_merge): sum_gradient with trans = clip_log over the merged batches
+MixDataBatch ==
+    /\ pc = "mix_data" /\ bk <= NBatches(NMerged, scn.batch)
+    /\ LET lo == Lo(bk)
+           hi == Hi(bk, NMerged)
+       IN /\ acc' = VAdd(acc, VSumF([e \in lo..hi |->
+                        VScale(wts[e], VLn(AmpD(scn, GroupOfEv(e), e - Offset(GroupOfEv(e)))))], lo, hi))
+          /\ trail' = Append(trail, <<"D", lo, hi>>)
+    /\ bk' = bk + 1
+    /\ UNCHANGED <<scn, pc, gi, wts, mcw, sw, im, ib, tot>>
+MixDataDone ==
+    /\ pc = "mix_data" /\ bk > NBatches(NMerged, scn.batch)
+    /\ tot' = VNeg(acc)                                  \* -ln_data
+    /\ pc' = "mix_mcstart" /\ gi' = 1
+    /\ UNCHANGED <<scn, wts, mcw, bk, acc, sw, im, ib, trail>>
+\* per data set: weight_phsp["weight"] = w / sum(w), split into batches; n_datas[k] = sum of the blended weights
+MixMCStart ==
+    /\ pc = "mix_mcstart"
+    /\ LET g == Grp IN
+       mcw' = LET w == MCW(g) sv == QSumF(w, 1, NM(g)) IN TLCEval([j \in 1..NM(g) |-> QDiv(w[j], sv)])
+    /\ sw' = QSumF(wts, Offset(gi) + 1, Offset(gi) + N)
+    /\ im' = QZero /\ bk' = 1 /\ pc' = "mix_mc"
+    /\ trail' = SelectSeq(trail, LAMBDA e : e[1] = "D")
+    /\ UNCHANGED <<scn, gi, wts, acc, ib, tot>>
+MixMCBatch ==
+    /\ pc = "mix_mc" /\ bk <= NBatches(NM(Grp), scn.batch)
+    /\ LET lo == Lo(bk)
+           hi == Hi(bk, NM(Grp))
+       IN /\ im' = QAdd(im, QSumF([j \in lo..hi |-> QMul(mcw[j], AmpM(scn, gi, j))], lo, hi))
+          /\ trail' = Append(trail, <<"m", lo, hi>>)
+    /\ bk' = bk + 1
+    /\ UNCHANGED <<scn, pc, gi, wts, mcw, acc, sw, ib, tot>>
+\* sum_log_integral_grad_batch(k, l): self.int_f(int_mc) * ndata
+MixMCDone ==
+    /\ pc = "mix_mc" /\ bk > NBatches(NM(Grp), scn.batch)
+    /\ tot' = VAdd(tot, IF scn.kind = "extended" THEN VQ(QMul(sw, im)) ELSE VScale(sw, VLn(im)))
+    /\ IF gi < NGroups THEN gi' = gi + 1 /\ pc' = "mix_mcstart" ELSE gi' = gi /\ pc' = "group_done"
+    /\ UNCHANGED <<scn, wts, mcw, bk, acc, sw, im, ib, trail>>
+MixNext == MixBlend \/ MixDataBatch \/ MixDataDone \/ MixMCStart \/ MixMCBatch \/ MixMCDone
+
+\* FCN.__call__ / nll_grad, CombineFCN.__call__ / nll_grad (inherited by MixLogLikehoodFCN): + constraint term, once
 Finish ==
     /\ pc = "group_done" /\ gi = NGroups
     /\ tot' = VAdd(tot, VQ(ConstrTerm(scn.constr)))
@@ -457,7 +525,7 @@ Finish ==
     /\ UNCHANGED <<scn, gi, wts, mcw, bk, acc, sw, im, ib, trail>>
 
 Next == Setup \/ Blend \/ PreBatch \/ DataBatch \/ DataDone \/ MCBatch \/ MCDone \/ Combine
-        \/ ReBlend \/ ValueEval \/ NextGroup \/ Finish
+        \/ ReBlend \/ ValueEval \/ NextGroup \/ Finish \/ MixNext
 Spec == Init /\ [][Next]_vars
 
 --------------------------------------------------------------------------
@@ -478,7 +546,11 @@ Covers(tr, tag, n) ==      \* the entries with this tag are <<1,h1>>, <<h1+1,h2>
     IN /\ Len(sel) >= 1
        /\ sel[1][2] = 1 /\ sel[Len(sel)][3] = n
        /\ \A x \in 1..(Len(sel) - 1) : sel[x + 1][2] = sel[x][3] + 1 /\ sel[x][2] <= sel[x][3]
-Partition == pc = "group_done" => Covers(trail, "d", N) /\ Covers(trail, "m", NM(Grp))
+Partition == pc = "group_done" =>
+    IF scn.path = "mix" THEN Covers(trail, "D", NMerged) /\ Covers(trail, "m", NM(Grp))
+    ELSE Covers(trail, "d", N) /\ Covers(trail, "m", NM(Grp))
+\* the mixed likelihood: n_k is alpha_k * sum of the raw weights of data set k, the MC weights are normalised
+MixWeights == pc = "mix_mc" => sw = QMul(Alpha(Grp), SumW(Grp)) /\ QSumF(mcw, 1, NM(Grp)) = QOne
 \* invariance of the definition under a common rescaling of all amplitudes
 \* when not extended; the extended value does change (non-vacuity of the rule)
 ScaleInvariant ==
@@ -489,8 +561,8 @@ ScaleInvariant ==
 \* a simultaneous fit is the sum of its parts (constraints once)
 SumOfParts == pc = "done" =>
     tot = VAdd(VSumF([k \in 1..NGroups |-> DefGroup(scn, k)], 1, NGroups), VQ(ConstrTerm(scn.constr)))
-TypeOK == /\ pc \in {"seed", "start", "blended", "data", "mc", "combine", "value", "value2", "group_done", "done", "raised"}
-          /\ gi \in 1..NGroups /\ bk \in 1..(MaxData + MaxBg + MaxMC + 2)
+TypeOK == /\ pc \in {"mix_start", "mix_data", "mix_mcstart", "mix_mc", "seed", "start", "blended", "data", "mc", "combine", "value", "value2", "group_done", "done", "raised"}
+          /\ gi \in 1..NGroups /\ bk \in 1..(NGroups * (MaxData + MaxBg) + MaxMC + 2)
 
 --------------------------------------------------------------------------
 (* output for the harness: the scenario table with the exact value of the   *)
